@@ -129,6 +129,9 @@ pub fn eval(n: &Node, at: NV) -> R {
             RV::Val(_, Q::Lambert(_)) => RV::Val(NRef { v: NV::Float(f64::NAN), typed: false }, Q::Skip),
             RV::Val(r, q) => match r.v {
                 NV::Int(i) if r.typed => int_or_float(-(i as i128), -(i as f64), q),
+                // an exact integer of uncertain variant (the result of min / max / med over Integers): its negation
+                // is that integer negated, not the negation of its rounded double
+                NV::Int(i) if i != i64::MIN => RV::Val(NRef { v: NV::Int(-i), typed: false }, q),
                 v => num(-v.f(), q),
             },
             o => o,
